@@ -2853,6 +2853,10 @@ class TLSConnection(TLSRecordLayer):
             if self.version < (3, 4):
                 return None, ticket
 
+            # expired tickets must not be used for resumption
+            if ticket.creation_time + settings.ticketLifetime < time.time():
+                return None, None
+
             prf = 'sha384' if ticket.cipher_suite \
                 in CipherSuite.sha384PrfSuites else 'sha256'
 
